@@ -81,6 +81,8 @@ def gen_case(r):
         mx = r.choice([1, 1, 2])
         return [7, r.randint(0, 1), mx, mx + r.choice([1, 2, 4]), r.choice([1, 10, 500, 900]), r.randint(0, 2),
                 r.choice([0, 100, 5000, 70000])]
+    if x < 0.905:
+        return [9, r.choice([3, 100, 3000]), r.choice([0, 1, 2000, 30000]), r.randint(0, 1)]
     if x < 0.915:
         return [8, r.choice([2, 2, 3, 4]), r.choice([1, 100, 1000])]
     if x < 0.93:
@@ -113,6 +115,8 @@ def describe(case):
             return "read_to_end-after-%s" % ("nothing" if case[2] == 0 else ("read" if case[3] == 0 else "read_chunk"))
         if case[0] == 8:
             return "datagram-readers/%d" % case[1]
+        if case[0] == 9:
+            return "bidi-halves/%s" % ("read_to_end" if case[3] == 0 else "read")
         if case[0] == 7:
             return "drop-stopped-%s/%s" % ("bidi" if case[1] else "uni", ["after-stopped()", "after-write-error", "after-20ms"][case[5]])
     except IndexError:
